@@ -336,9 +336,14 @@ impl<'r, 'c, 's, W: Write> Serializer for DatumSerializer<'r, 'c, 's, W> {
 				let by_type = union
 					.per_type_lookup
 					.unnamed(UnionVariantLookupKey::UnitVariant);
+				// (the enum being serialized is that enum variant if it has this symbol and
+				// carries its name; otherwise e.g. the `Null` variant of an enum representing
+				// the union itself would be mistaken for the symbol `Null` of an enum variant)
 				let is_symbol_of_enum_variant = matches!(
 					by_type,
-					Some((_, SchemaNode::Enum(e))) if e.per_name_lookup.contains_key(variant)
+					Some((_, SchemaNode::Enum(e)))
+						if e.per_name_lookup.contains_key(variant)
+							&& (e.name.name() == name || e.name.fully_qualified_name() == name)
 				);
 				match union.per_type_lookup.named(variant) {
 					// A unit variant named after the null variant of the union (that is how the
